@@ -19,3 +19,4 @@ def rules(ctx):
     S.c03_r6_deferred_close(ctx)
     S.c02_r1_register_atomic(ctx)
     S.c02_r2_register_before_root(ctx)
+    S.c08_r8_flush_keeps_page(ctx)
